@@ -49,15 +49,16 @@ func (m *mwallet) stdAddrs() []string {
 
 // World is the state of one generated case.
 type World struct {
-	node         *sim.Node
-	env          *sim.Env
-	wallets      []*mwallet
-	strangers    [][32]byte
-	tipAnnounced bool
-	journal      []string
-	bindCounter  uint64
-	flags        map[string]bool
-	gap          uint32
+	node             *sim.Node
+	env              *sim.Env
+	wallets          []*mwallet
+	strangers        [][32]byte
+	tipAnnounced     bool
+	journal          []string
+	bindCounter      uint64
+	forcedReorgDepth int
+	flags            map[string]bool
+	gap              uint32
 	// mempool model (C09): pending relevant transactions known to the wallet
 	pending           map[wire.Hash]*wire.MsgTx
 	everSeen          map[wire.Hash]*wire.MsgTx
@@ -262,7 +263,7 @@ type txOpts struct {
 func (w *World) pickDest(t *rapid.T, height uint64, hasBindingIn bool, budget int64) ([]byte, int64, bool) {
 	kinds := []string{"wallet", "wallet", "wallet", "stranger"}
 	if w.allowNullData {
-		kinds = append(kinds, "nulldata")
+		kinds = append(kinds, "nulldata", "multisig")
 	}
 	if w.allowStaking && budget >= int64(consensus.MinStakingValue) {
 		kinds = append(kinds, "staking", "staking")
@@ -295,6 +296,13 @@ func (w *World) pickDest(t *rapid.T, height uint64, hasBindingIn bool, budget in
 		return sim.StdScript(a.Hash), 1, false
 	case "stranger":
 		return sim.StdScript(w.strangers[rapid.IntRange(0, len(w.strangers)-1).Draw(t, "stranger")]), 1, false
+	case "multisig":
+		// a script class the wallet does not support, carrying value, so that later transactions spend it
+		w.flag("unsupported-output")
+		var pub [33]byte
+		pub[0] = 2
+		copy(pub[1:], w.strangers[rapid.IntRange(0, len(w.strangers)-1).Draw(t, "stranger")][:])
+		return sim.BareMultiSigScript(pub), 1, false
 	case "nulldata":
 		w.flag("nulldata-output")
 		return sim.NullDataScript(rapid.SliceOfN(rapid.Byte(), 0, 20).Draw(t, "nulldata")), 0, false
@@ -332,7 +340,9 @@ func spendableAt(c *Coin, next uint64) bool {
 		// the node's own binding index cannot spend a binding output inside the block that creates it
 		return false
 	}
-	return next-c.Height >= requiredConfs(c) && c.Class != clsOther
+	// clsOther with a value is an unsupported but spendable script (bare multisig): nobody's coin, yet
+	// transactions that spend it reach the wallet when they also touch a wallet
+	return next-c.Height >= requiredConfs(c) && (c.Class != clsOther || c.Value > 0)
 }
 
 // genTx draws one transaction valid on top of view for a block at height next; nil if nothing to spend.
@@ -609,9 +619,19 @@ func (w *World) actReorg(t *rapid.T) {
 	if maxD > 8 {
 		maxD = 8
 	}
-	d := rapid.IntRange(1, maxD).Draw(t, "depth")
-	if d > 3 && rapid.IntRange(0, 2).Draw(t, "shallow") > 0 {
-		d = rapid.IntRange(1, 3).Draw(t, "depthShallow")
+	d := 0
+	if w.forcedReorgDepth > 0 {
+		// a deep reorganisation down to a chosen height (C07: the rescan cursor of an importing wallet)
+		d = w.forcedReorgDepth
+		if d > h {
+			d = h
+		}
+		w.forcedReorgDepth = 0
+	} else {
+		d = rapid.IntRange(1, maxD).Draw(t, "depth")
+		if d > 3 && rapid.IntRange(0, 2).Draw(t, "shallow") > 0 {
+			d = rapid.IntRange(1, 3).Draw(t, "depthShallow")
+		}
 	}
 	m := d + rapid.IntRange(0, 3).Draw(t, "extra")
 	// transactions of the disconnected blocks, oldest first
@@ -692,7 +712,13 @@ func (w *World) actReorg(t *rapid.T) {
 		if i == 0 || rapid.Bool().Draw(t, "carryLater") {
 			carry = append(append(carry, conflicts...), remine...)
 		}
-		blk := w.buildBlock(t, prev, view, carry, 3)
+		var blk *massutil.Block
+		if i >= 3 && m > 12 {
+			// the tail of a deep replacement branch is quiet (keeps the case small and fast)
+			blk = w.node.NewBlock(prev, nil, nil)
+		} else {
+			blk = w.buildBlock(t, prev, view, carry, 3)
+		}
 		// drop carried transactions that made it
 		in := map[wire.Hash]bool{}
 		for _, tx := range blk.MsgBlock().Transactions {
@@ -808,13 +834,14 @@ var (
 // hstep is one recorded step of a history: node operations carry the concrete block so that the
 // same history can be replayed on a fresh node and wallet instance.
 type hstep struct {
-	Kind   string // attach | detach | announce | deliver | serve | import | newAddress | remove
+	Kind   string // attach | detach | announce | deliver | serve | import | importJSON | newAddress | remove
 	Block  *massutil.Block
 	Msg    *wire.MsgBlock
 	Wallet string
 	Class  uint16
 	Keys   *sim.WalletKeys
 	Pass   string
+	JSON   string // exported keystore (importJSON)
 }
 
 func (w *World) record(s hstep) {
